@@ -734,4 +734,37 @@ def none_tests(repo: Repo) -> RuleRun:
 none_tests.rule_id = "C08.NONE-TESTS"
 
 
-RULES = [trig_domain, arg_pairing, affine_kinds, sign_flows, circumcentre, reflex_decision, reflex_midpoint, adjust_only_when_needed, validity_tolerance, no_memo, edge_ends, arguments_untouched, collinearity_scale_free, beam_list, none_tests]
+
+def angle_axis_exact(repo: Repo) -> RuleRun:
+    """'an arc given by angle and axis passes through the point the solver computes from that data' - also after the edge was mirrored in a plane whose normal is not of unit length, or scaled by a negative ratio. Same rule as C09.ANGLE-AXIS-EXACT."""
+    from . import c09
+
+    return c09.angle_axis_exact(repo, PROP, "C08.ANGLE-AXIS-EXACT")
+
+
+angle_axis_exact.rule_id = "C08.ANGLE-AXIS-EXACT"
+
+
+def no_shared_parts(repo: Repo) -> RuleRun:
+    """'an arc given by angle and axis ...': every side edge of a revolved operation owns its angle-and-axis data - one object in four slots is rotated, mirrored and reversed four times. Same rule as C09.NO-SHARED-PARTS."""
+    from ..report import rebrand
+    from . import c09
+
+    return rebrand(c09.no_shared_parts(repo), PROP, "C08.NO-SHARED-PARTS")
+
+
+no_shared_parts.rule_id = "C08.NO-SHARED-PARTS"
+
+
+def end_pairing(repo: Repo) -> RuleRun:
+    """'the length of a curve edge is not below its chord': the points a curve hands out for a range start at the first and end at the last parameter, in either direction (a backwards range down to index 0 must not come out empty). Same rule as C16.END-PAIRING."""
+    from ..report import rebrand
+    from . import c16
+
+    return rebrand(c16.end_pairing(repo), PROP, "C08.END-PAIRING")
+
+
+end_pairing.rule_id = "C08.END-PAIRING"
+
+
+RULES = [trig_domain, arg_pairing, affine_kinds, sign_flows, circumcentre, reflex_decision, reflex_midpoint, adjust_only_when_needed, validity_tolerance, no_memo, edge_ends, arguments_untouched, collinearity_scale_free, beam_list, none_tests, angle_axis_exact, no_shared_parts, end_pairing]
